@@ -829,6 +829,18 @@ theorem translated_sqrt_mod_p_eq (sqrt a p : Int) (hp : 0 < p) :
 theorem translated_sqrt_mod_2p_eq (sqrt a p : Int) (hp : 0 < p) :
     SqiGen.Intbig.ibz_sqrt_mod_2p sqrt a p = ibzSqrtMod2P a p := gen_ibz_sqrt_mod_2p sqrt a p hp
 
+/-- mask computation (`(mp_limb_t)-1 >> ((64 − len_bits % 64) % 64)`, a partial word shift in the translated code) and the
+    rejection `do … while (1)` loop over `randombytes` -/
+theorem translated_rand_interval_eq (rand a b : Int) (stream : List Nat) :
+    SqiGen.Intbig.ibz_rand_interval rand a b stream = ibzRandInterval a b stream := gen_ibz_rand_interval rand a b stream
+
+/-- `ibz_rand_interval`, translated code: never undefined, and every accepted sample lies in [a, b] -/
+theorem translated_rand_interval_spec (rand a b : Int) (stream : List Nat) :
+    SqiGen.Intbig.ibz_rand_interval rand a b stream ≠ .ub ∧
+    ∀ r rest, SqiGen.Intbig.ibz_rand_interval rand a b stream = .ok (r, rest) → a ≤ r ∧ r ≤ b := by
+  rw [translated_rand_interval_eq]
+  exact ⟨rand_interval_never_ub a b stream, fun r rest h => rand_interval_range_c a b stream r rest h⟩
+
 /-- the specification of `ibz_sqrt_mod_p`, stated directly about the translated code: for every prime p and every a (and
     whatever the output variable contained) — sound, complete, never aborting -/
 theorem translated_sqrt_mod_p_spec (pn : Nat) (hp : pn.Prime) (sqrt a : Int) :
